@@ -92,12 +92,15 @@ def r2(ctx):
             names = [e.name for e in o.effects]
             failed = any(d.text == "connect fails" and d.choice == 1 for d in o.decisions)
             sp = names.count("pingthread.start")
-            ok = (sp == 0) if failed else (sp == 1 and names.index("appsock.connect") < names.index("pingthread.start") < names.index("dispatcher.read"))
+            pos = lambda nm: names.index(nm) if nm in names else None
+            # the connection is made on the WebSocket object built for it (a fresh frame reader and reassembler), never on the old one
+            fresh = pos("WebSocket()") is not None and (failed or (pos("appsock.connect") is not None and pos("WebSocket()") < pos("appsock.connect")))
+            ok = fresh and ((sp == 0) if failed else (sp == 1 and pos("dispatcher.read") is not None and pos("appsock.connect") < pos("pingthread.start") < pos("dispatcher.read")))
             if reconnecting:
                 shut = [j for j, n in enumerate(names) if n.endswith("oldsock.shutdown")]
-                ok = ok and len(shut) == 1 and shut[0] < names.index("WebSocket()")
+                ok = ok and len(shut) == 1 and shut[0] < pos("WebSocket()")
             ctx.ob(f"{q}:reconnecting={reconnecting}:{'fail' if failed else 'ok'}:{i}", ok, f"effects {names}" if ok else
-                   f"effects {names}: the previous socket must be shut down before a new WebSocket is built, and the ping thread started exactly once after a successful connect",
+                   f"effects {names}: the previous socket must be shut down before a new WebSocket is built, the connection made on that new object, and the ping thread started exactly once after a successful connect",
                    loc, {"path": path_text(o)})
     # no ping thread without an interval
     I, outs = setsock_paths(ctx, False, False, ping_interval=0)
